@@ -200,19 +200,35 @@ Inject(X, r, f) ==
       \* an orderly close of the peer (FIN): eof_received() runs before connection_lost; datagram sockets have none
       [] f.k = "eof"    -> Dl(X, f.d, Fr(IF Kind = "udp" THEN "pclose" ELSE "eof", 0, 0))
       [] f.k = "err"    -> Dl(X, f.d, Fr(IF Kind = "udp" THEN "err" ELSE "pclose", 0, f.x))
+      \* the send itself fails.  Datagram sockets report it before sendto() returns (see Transmit); a stream transport
+      \* buffers the data and fails later like any other connection error
+      [] f.k = "serr"   -> IF Kind = "udp" THEN X ELSE Dl(X, f.d, Fr("pclose", 0, f.x))
 
 (***************************************************************************)
 (* task steps                                                              *)
 (***************************************************************************)
+\* error_received (udp)
+ErrorReceived(X, f) ==
+    LET st == X.s IN
+    IF FutPending(st)
+    THEN CloseTransport(Resolve(X, st.cur, "oserr", f))
+    ELSE IF "D" \in Fx THEN CloseTransport(X)
+    ELSE Emit([X EXCEPT !.s.unh = TRUE], Ev("UNHANDLED"))    \* set_exception on a finished / absent future
+
 \* _send_request: bind command and future, clear the fragment buffer, send, arm the timer
 Transmit(X, c, f) ==
     LET st == X.s
         r == Req(c, st.idx[c])
         X1 == [X EXCEPT !.s.cur = c, !.s.res[c] = Pending, !.s.pb = NoF, !.s.pc[c] = "wait", !.uf = TRUE,
                         !.s.rtx[c] = @ + 1]
+        Xs == Emit([X1 EXCEPT !.s.ntx = @ + 1], [Ev("SEND") EXCEPT !.tr = st.tr, !.f = Fr("req", r, st.ntx)])
+        \* "serr" on a datagram socket: sendto() catches the OSError of the socket and calls error_received() before it
+        \* returns - the future fails and the transport is dropped INSIDE _send_request, which then still arms its timer
+        \* (connection_lost, queued by the close, cancels it)
         X2 == IF st.tr \in st.open
-              THEN Inject(Emit([X1 EXCEPT !.s.ntx = @ + 1],
-                               [Ev("SEND") EXCEPT !.tr = st.tr, !.f = Fr("req", r, st.ntx)]), r, f)
+              THEN (IF f.k = "serr" /\ Kind = "udp"
+                    THEN ErrorReceived(Emit(Xs, [Ev("ERR") EXCEPT !.tr = st.tr]), Fr("err", 0, f.x))
+                    ELSE Inject(Xs, r, f))
               ELSE X1
         X3 == Arm(X2, "tm", 0, now + T)
     IN [X3 EXCEPT !.s.timer = X2.s.nt]
@@ -374,14 +390,6 @@ Received(X, tr, f) ==
                         THEN Resolve(X1, X1.s.cur, "rejected", f)
                         ELSE X1
               IN IF Kind = "udp" THEN CloseTransport(X2) ELSE X2
-
-\* error_received (udp)
-ErrorReceived(X, f) ==
-    LET st == X.s IN
-    IF FutPending(st)
-    THEN CloseTransport(Resolve(X, st.cur, "oserr", f))
-    ELSE IF "D" \in Fx THEN CloseTransport(X)
-    ELSE Emit([X EXCEPT !.s.unh = TRUE], Ev("UNHANDLED"))    \* set_exception on a finished / absent future
 
 Io(X, tr, f) ==
     IF tr \notin X.s.open THEN X       \* the transport is closing: nothing is delivered any more
